@@ -179,7 +179,7 @@ type runner struct {
 	tags comp.TagSet
 }
 
-func (r *runner) doUnpad(in []byte, isNil bool) {
+func (r *runner) doUnpad(in []byte) {
 	cp, sp, dt := cap(in), hx(spareOf(in)), hx(in)
 	inLen := len(in)
 	var out []byte
@@ -202,7 +202,6 @@ func (r *runner) doUnpad(in []byte, isNil bool) {
 	if len(out) == 0 {
 		r.tags.Add("unpad-to-empty")
 	}
-	_ = isNil
 }
 
 func (r *runner) doPad(in []byte) {
@@ -238,7 +237,7 @@ func (r *runner) doPad(in []byte) {
 		r.tags.Add("pad-spare-too-small")
 	}
 	// round trip on the real output, with whatever capacity it has
-	r.doUnpad(out, false)
+	r.doUnpad(out)
 }
 
 // padNeed is the number of bytes PadInPlace must add to an input of length n (zeros + trailer).
@@ -430,12 +429,12 @@ func execScript(script []string, opt comp.Options) comp.Result {
 			if f[0] == "pad" {
 				r.doPad(in)
 			} else {
-				r.doUnpad(in, false)
+				r.doUnpad(in)
 			}
 		case "padnil":
 			r.doPad(nil)
 		case "unpadnil":
-			r.doUnpad(nil, true)
+			r.doUnpad(nil)
 		case "prefix", "trim":
 			if len(f) != 2 {
 				continue
